@@ -466,8 +466,22 @@ def run_max_freq(case, ob, site):
     ok = isinstance(got, SymFloat)
     ob.fact('max_freq-is-a-float-function-of-max_length', ok, site + ':shape')
     if ok:
-        ob.prove('max_freq(tech=%s, ffoverhead=%s)' % (case['tech'], case['ff']), z3.fpEQ(got.t, exp), pre, None, site=site,
-                 extract=lambda m: {'L': str(m.eval(Lv, model_completion=True))})
+        def ext(m):
+            val = m.eval(Lv, model_completion=True)
+            try:
+                fr = z3.simplify(z3.fpToReal(val)).as_fraction()
+                return {'L': float(fr)}
+            except Exception:
+                return {'L': str(val)}
+        name = 'max_freq(tech=%s, ffoverhead=%s)' % (case['tech'], case['ff'])
+        # ground instances first: a wrong formula is refuted by constant folding in milliseconds, whereas the solver may
+        # need minutes to find a floating-point witness on its own; the general query follows only if these hold
+        for L0 in (0.0, 1.0, 100.0, 1234.5):
+            if ob.prove('%s at max_length=%s' % (name, L0), z3.fpEQ(got.t, exp), pre + [z3.fpEQ(Lv, z3.FPVal(L0, F64))], None,
+                        site=site, extract=ext) == 'sat':
+                ob.paths += 1
+                return
+        ob.prove(name, z3.fpEQ(got.t, exp), pre, None, site=site, extract=ext)
     ob.paths += 1
 
 
@@ -518,7 +532,18 @@ def replay(cex):
         return bool(miss), 'paths(%s, %s) returned %d path(s); simple net path(s) not returned: %s' % (
             s_.name, d_.name, len(got), [[str(n).strip() for n in p] for p in miss[:2]])
     if c['k'] == 'max_freq':
-        return False, 'max_freq counterexamples are floating-point models; not replayed'
+        L = cex.get('L')
+        if not isinstance(L, (int, float)):
+            return False, 'max_freq counterexample without a finite max_length: %r' % (L,)
+        block = max_freq_circuit()
+        ta = analysis.TimingAnalysis(block=block)
+        ta.timing_map = {w: float(L) for w in ta.timing_map}
+        got = ta.max_freq(tech_in_nm=c['tech'], ffoverhead=c['ff']) if c['ff'] is not None else ta.max_freq(tech_in_nm=c['tech'])
+        scale = 130.0 / c['tech']
+        period = scale * (float(L) + 189.0 + 194.0) if c['ff'] is None else scale * float(L) + float(c['ff'])
+        exp = 1e6 * 1.0 / period
+        return got != exp, 'max_length=%r tech=%r ffoverhead=%r: max_freq() = %r, documented formula gives %r' % (
+            L, c['tech'], c['ff'], got, exp)
     # timing: evaluate with concrete delays from the model is not recorded per variable; re-run symbolically
     from ..core import Obligations
     ob = Obligations(PROP, c, 20000)
